@@ -94,7 +94,7 @@ theorem inv_insert {ic : Bool} (t : Item ι V) (p : List Char) (id : ι) (v : V)
 theorem inv_remove {ic : Bool} (t : Item ι V) (id : ι) (h : Inv ic t) : Inv ic (t.remove id).1 :=
   Tree.inv_remove t id h
 
-theorem inv_retain {ic : Bool} (t : Item ι V) (f : ι → V → Bool) (h : Inv ic t) : Inv ic (t.retain f) :=
+theorem inv_retain {ic : Bool} (t : Item ι V) (f : ι → V → Option V) (h : Inv ic t) : Inv ic (t.retain f) :=
   Tree.inv_retain t f h
 
 /-- `cache` (any limit, any level or the level loop) returns normally and preserves the invariant. -/
@@ -164,8 +164,9 @@ theorem contents_remove (t : Item ι V) (id : ι) :
     (t.remove id).1.contents = refRemove t.contents id ∧ (t.remove id).2 = refRemoved t.contents id :=
   Tree.contents_remove t id
 
-/-- **contents_retain.** -/
-theorem contents_retain (t : Item ι V) (f : ι → V → Bool) :
+/-- **contents_retain.**  `retain(f)` keeps exactly the entries the closure keeps, with the values the closure
+left in them (`f id v = some v'`), in order. -/
+theorem contents_retain (t : Item ι V) (f : ι → V → Option V) :
     (t.retain f).contents = refRetain t.contents f := Tree.contents_retain t f
 
 /-- `cache` does not change what is stored. -/
@@ -291,7 +292,7 @@ theorem empty_pattern_scan : scanOf stdEngine false ((Item.empty false : Item Na
 remove, retain. -/
 def demoOps : List (Op Nat Nat) :=
   [.insert "/a(?:x)/b".toList 2 20, .insert "/a(?:x)".toList 1 11, .insert "/a(?:x)".toList 1 12,
-   .insert "/日\\.(?:[0-9]+)".toList 3 30, .cache 2 none, .remove 2, .retain (fun id _ => id != 3)]
+   .insert "/日\\.(?:[0-9]+)".toList 3 30, .cache 2 none, .remove 2, .retain (keepIf fun id _ => id != 3)]
 
 set_option maxRecDepth 100000 in
 example : histOk rulePatB [] demoOps = true := by decide +kernel
